@@ -64,3 +64,14 @@ void h_SCHEMAprint_files(void)
     __CPROVER_assert(g_scope_calls == 1 && g_init_in_scope == files.init, "the schema's declarations are printed once, with the init file open");
     __CPROVER_assert(g_closed_init == 1 && g_init_at_close == files.init, "the init file is closed once at the end");
 }
+
+/* C06: a schema file with nothing to print (e.g. only FUNCTIONs) never runs SCHEMAprint, so the per-schema names header was never opened:
+ * the trailer must not print to it (fprintf's stub asserts an open file) */
+void h_print_file_trailer(void)
+{
+    IN(int, in_printed);
+    static FILES files; static FILE all[5];
+    files.incall = &all[0]; files.initall = &all[1]; files.create = &all[2]; files.classes = &all[3];
+    files.names = in_printed ? &all[4] : (FILE *)0;
+    print_file_trailer(&files);
+}
